@@ -1,9 +1,10 @@
 (* C17 — Tar export round-trips the filesystem view.
    Only the property theorems (closed by [exact]) with their [Print Assumptions], and
    non-vacuity examples.  Model: Model/TarHdr.v (+ Model/Hardlinks.v for the hard-link
-   reset WriteTar applies first); proofs: Proofs/TarP.v. *)
+   reset WriteTar applies first); proofs: Proofs/TarP.v, TarExtractP.v, TarSpecP.v, TarFilterP.v
+   (the last one on top of C11's Proofs/HardlinksP.v). *)
 From Coq Require Import List NArith ZArith Bool.
-From FS Require Import Sx Model.Path Model.Stat Model.Tree Model.Hardlinks Model.TarHdr Proofs.TarP.
+From FS Require Import Sx Model.Path Model.Stat Model.Tree Model.Hardlinks Model.TarHdr Proofs.TarP Proofs.TarExtractP Proofs.TarSpecP Proofs.TarFilterP.
 Import ListNotations.
 Open Scope N_scope.
 
@@ -56,7 +57,100 @@ Theorem hdr_roundtrip_plain_file :
     stat_of_hdr (archived (hdr_of_stat s)) = round_mtime_to_second s.
 Proof. exact hdr_roundtrip_plain_file_proof. Qed.
 
+(* "Including for filtered views": for ANY listing handed to WriteTar (the walk of a filtered
+   FS), the members are the entries of that listing after the hard-link reset, one each, in
+   order, sizes matching. *)
+Theorem members_are_listing :
+  forall l, wf_listing_b (reset_entries l) = true ->
+    write_tar_listing l = TarOk (tar_members_listing l)
+    /\ Forall2 member_of (reset_entries l) (tar_members_listing l)
+    /\ Forall (fun m : member => h_size (fst m) = blen (snd m)) (tar_members_listing l).
+Proof. exact members_are_listing_proof. Qed.
+
+(* Extracting the archive reproduces the view: same entries in the same order, every stat
+   field and all bytes, with the mtime to the second and Size only on regular files (dropped
+   on directories, symlinks, devices, fifos); hard-link members get size and bytes back from
+   the member they name.  [extracted e] = (round_mtime_to_second (Size only if regular), bytes). *)
+Theorem extract_roundtrip :
+  forall v, wf_listing_b (walk_root v) = true -> links_closed (walk_root v) = true ->
+    extract (archive v) = map extracted (walk_root v).
+Proof. exact extract_roundtrip_proof. Qed.
+
+(* The same for ANY listing handed to WriteTar (the walk of a filtered FS, composition with
+   C10/C11): what comes back is the listing WriteTar ends up walking, i.e. the listing after
+   its hard-link reset ... *)
+Theorem extract_listing_roundtrip :
+  forall l, wf_listing_b (reset_entries l) = true -> links_closed (reset_entries l) = true ->
+    extract (map archived_member (tar_members_listing l)) = map extracted (reset_entries l).
+Proof. exact extract_listing_roundtrip_proof. Qed.
+
+(* ... which is the listing itself when its own links are closed. *)
+Theorem extract_closed_listing_roundtrip :
+  forall l, wf_listing_b l = true -> links_closed l = true ->
+    extract (map archived_member (tar_members_listing l)) = map extracted l.
+Proof. exact extract_closed_listing_roundtrip_proof. Qed.
+
+(* Oracle = specification, proved: the model's archive satisfies the member-by-member
+   specification that the correspondence run evaluates on the REAL archive (members_match:
+   name, typeflag, mode bits, owners, |mtime difference| < 1 s on a whole second, link name,
+   device numbers, xattrs, exact payload, declared size = payload length) against the listing
+   after the hard-link reset; and with closed links every hard-link member names an earlier
+   regular member.  For any listing (filtered or not) ... *)
+Theorem model_meets_member_spec :
+  forall l, wf_listing_b (reset_entries l) = true -> forallb mtime_in_range (reset_entries l) = true ->
+    members_match (reset_entries l) (map archived_member (tar_members_listing l)) = true
+    /\ (links_closed (reset_entries l) = true ->
+        links_resolve (map archived_member (tar_members_listing l)) = true).
+Proof. exact model_meets_member_spec_proof. Qed.
+
+(* ... and for a whole view with closed links, against the view's own walk. *)
+Theorem model_meets_member_spec_view :
+  forall v, wf_listing_b (walk_root v) = true -> links_closed (walk_root v) = true ->
+    forallb mtime_in_range (walk_root v) = true ->
+    members_match (walk_root v) (archive v) = true /\ links_resolve (archive v) = true.
+Proof. exact model_meets_member_spec_view_proof. Qed.
+
+(* Composition with the C11 hard-link reset on FILTERED views (regression for /repo dd2568d).
+   l is any listing the filters leave of a canonical walk (Hardlinks.wf_links: distinct paths,
+   a link names an EARLIER plain non-link entry if it names a kept entry at all) — in
+   particular the first member of a link group may have been excluded.  If the members of a
+   link group have the same type (one inode), the archive is self-contained: every hard-link
+   member names an earlier regular member of the archive. *)
+Theorem filtered_links_resolve :
+  forall l, wf_links (map fst l) = true -> group_types_agree l = true ->
+    wf_listing_b (reset_entries l) = true ->
+    links_resolve (map archived_member (tar_members_listing l)) = true.
+Proof. exact filtered_links_resolve_proof. Qed.
+
+(* If they also have the same size and bytes (and only regular files have bytes), the listing
+   WriteTar ends up walking has closed links ... *)
+Theorem filtered_links_closed :
+  forall l, wf_links (map fst l) = true -> group_types_agree l = true -> group_contents_agree l = true ->
+    no_content_unless_regular l = true ->
+    wf_listing_b (reset_entries l) = true ->
+    links_closed (reset_entries l) = true.
+Proof. exact filtered_links_closed_proof. Qed.
+
+(* ... so that extracting the archive of the filtered view gives back exactly the kept entries,
+   the first kept member of each link group as a regular file with the bytes and the later
+   ones as links to it. *)
+Theorem extract_filtered_roundtrip :
+  forall l, wf_links (map fst l) = true -> group_types_agree l = true -> group_contents_agree l = true ->
+    no_content_unless_regular l = true ->
+    wf_listing_b (reset_entries l) = true ->
+    extract (map archived_member (tar_members_listing l)) = map extracted (reset_entries l).
+Proof. exact extract_filtered_roundtrip_proof. Qed.
+
 Print Assumptions members_are_view.
+Print Assumptions members_are_listing.
+Print Assumptions extract_roundtrip.
+Print Assumptions extract_listing_roundtrip.
+Print Assumptions extract_closed_listing_roundtrip.
+Print Assumptions model_meets_member_spec.
+Print Assumptions model_meets_member_spec_view.
+Print Assumptions filtered_links_resolve.
+Print Assumptions filtered_links_closed.
+Print Assumptions extract_filtered_roundtrip.
 Print Assumptions members_are_view_closed.
 Print Assumptions payload_iff_regular_nonempty_nonlink.
 Print Assumptions payload_size_matches.
@@ -101,6 +195,13 @@ Example view1_archive :
   /\ links_resolve (archive view1) = true.
 Proof. vm_compute. repeat split; reflexivity. Qed.
 
+Example view1_extracts :
+  extract (archive view1) = map extracted (walk_root view1)
+  /\ forallb mtime_in_range (walk_root view1) = true
+  /\ nth_error (extract (archive view1)) 5
+     = Some (round_mtime_to_second (set_path (set_linkname st_f p_df) [100; 47; 103]), hello).   (* the link member, whole *)
+Proof. vm_compute. repeat split; reflexivity. Qed.
+
 (* mtime ...999999999 ns is archived as the NEXT second, -1 ns as second 0 *)
 Example rounding :
   round_sec 1600000000999999999 = 1600000001%Z /\ round_sec 1600000000500000000 = 1600000001%Z
@@ -117,6 +218,59 @@ Example filtered_link_group :
   /\ map (fun m : member => (h_typeflag (fst m), h_linkname (fst m), snd m)) (tar_of_listing l)
   = [(TypeLink, p_df, [])].
 Proof. vm_compute. split; reflexivity. Qed.
+
+(* the same filtered listing plus a second kept member of the group, "h" -> d/f: WriteTar
+   walks [g (now a plain file); h -> g]; its own links are NOT closed (d/f is gone), those of
+   the reset listing are, the archive extracts to the reset listing, and it meets the
+   member-by-member specification *)
+Definition filtered2 : list entry :=
+  [(set_path (set_linkname st_f p_df) [103], hello); (set_path (set_linkname st_f p_df) [104], hello)].
+Example filtered_extracts :
+  links_closed filtered2 = false
+  /\ wf_listing_b (reset_entries filtered2) = true /\ links_closed (reset_entries filtered2) = true
+  /\ forallb mtime_in_range (reset_entries filtered2) = true
+  /\ map (fun e : entry => st_linkname (fst e)) (reset_entries filtered2) = [[]; [103]]
+  /\ extract (map archived_member (tar_members_listing filtered2)) = map extracted (reset_entries filtered2)
+  /\ members_match (reset_entries filtered2) (map archived_member (tar_members_listing filtered2)) = true
+  /\ links_resolve (map archived_member (tar_members_listing filtered2)) = true
+  /\ links_resolve (map archived_member (tar_of_listing filtered2)) = false.   (* without the reset: dangling *)
+Proof. vm_compute. repeat split; reflexivity. Qed.
+
+(* the hypotheses of the filtered-view theorems hold on filtered2 and on view1's walk with
+   d/f filtered out (d/g, the link to it, is kept and becomes a regular member with the bytes) *)
+Definition view1_without_df : list entry :=
+  filter (fun e : entry => negb (bytes_eqb (st_path (fst e)) p_df)) (walk_root view1).
+Example filtered_hypotheses :
+  wf_links (map fst filtered2) = true /\ group_types_agree filtered2 = true
+  /\ group_contents_agree filtered2 = true /\ no_content_unless_regular filtered2 = true
+  /\ length view1_without_df = 8%nat /\ links_closed view1_without_df = false
+  /\ wf_links (map fst view1_without_df) = true /\ group_types_agree view1_without_df = true
+  /\ group_contents_agree view1_without_df = true /\ no_content_unless_regular view1_without_df = true
+  /\ wf_listing_b (reset_entries view1_without_df) = true
+  /\ map (fun m : member => (h_typeflag (fst m), snd m)) (tar_members_listing view1_without_df)
+     = [(TypeBlock, []); (TypeChar, []); (TypeDir, []); (TypeReg, []); (TypeReg, hello);
+        (TypeDir, []); (TypeFifo, []); (TypeSymlink, [])]
+  /\ links_resolve (map archived_member (tar_members_listing view1_without_df)) = true
+  /\ extract (map archived_member (tar_members_listing view1_without_df))
+     = map extracted (reset_entries view1_without_df).
+Proof. vm_compute. repeat split; reflexivity. Qed.
+
+(* group_types_agree is needed: a "link" to a fifo passes the hard-link validator, but tar
+   cannot express it (a '1' member must name a '0' member) *)
+Example group_types_needed :
+  let l := [(set_path (mkst (ModeNamedPipe + 420) 0 0 0 0 [] 0 0 []) n_e, []);
+            (set_path (mkst 420 0 0 0 0 n_e 0 0 []) n_f, [])] in
+  wf_links (map fst l) = true /\ wf_listing_b (reset_entries l) = true /\ group_types_agree l = false
+  /\ links_resolve (map archived_member (tar_members_listing l)) = false.
+Proof. vm_compute. repeat split; reflexivity. Qed.
+
+(* the mtime hypothesis of model_meets_member_spec is needed: at the top of the int64 range
+   rounding to the nearest second leaves the range, and the specification is not met *)
+Example mtime_out_of_range :
+  let l := [(set_path (mkst 420 0 0 0 (two63 - 1) [] 0 0 []) n_e, [])] in
+  wf_listing_b (reset_entries l) = true /\ forallb mtime_in_range (reset_entries l) = false
+  /\ members_match (reset_entries l) (map archived_member (tar_members_listing l)) = false.
+Proof. vm_compute. repeat split; reflexivity. Qed.
 
 (* outside the well-formed domain the writer fails: Size larger / smaller than the bytes
    served, a socket, an xattr name containing '=' *)
